@@ -21,7 +21,9 @@ from ..runner import new_part, key_hash, open_switches
 RULE = ("class skeletons = bases {none, one, two, inherited, diamond, base with metaclass} x metaclass "
         "{implicit, explicit} x keywords {none, consumed by __init_subclass__} x decorators {0, 1, 2 "
         "order-sensitive, 1 returning a different object} x placement {module, function, class in "
-        "class, class in class in function, global-declared in a function, captured by a closure}, "
+        "class, class in class in function, global-declared in a function, captured by a closure, "
+        "after an earlier class statement of the same name in the same module / function scope, as "
+        "the taken alternative of an if/else whose other branch defines the same name}, "
         "each with every member set of size 1 and 2 from 18 member kinds (data, computed, method, "
         "static/class method, property+setter, zero- and two-argument super, __init__, decorated and "
         "plain __init_subclass__, nested class, if/while/for in the body, comprehension, lambda, "
@@ -102,7 +104,11 @@ MEMBERS = {
     "lam_class": "    kind = lambda self: __class__.__name__\n    kind2 = staticmethod(lambda: __class__.__mro__[0].__name__)\n",
     "deco_method": "    @fdeco\n    def dm(self, a=1):\n        return a * 2\n",
 }
-PLACEMENTS = ("module", "func", "cls", "cls_in_func", "global_decl", "closure")
+PLACEMENTS = ("module", "func", "cls", "cls_in_func", "global_decl", "closure",
+              # a second class statement of the same name in the same scope
+              "redefined", "redefined_in_func", "alternative")
+EARLIER = ("class K:\n    earlier = 1\n    def gone(self):\n        return 'gone'\n    def who(self):\n        return 'earlier'\n"
+           "    class In:\n        q = 0\n    class Extra:\n        pass")
 
 
 def place(cls_src, where):
@@ -118,6 +124,13 @@ def place(cls_src, where):
     if where == "cls_in_func":
         return ("def mk(PV='param-pv'):\n    GLOB = 'local-shadow'\n    class Outer:\n" + ind(cls_src, 2)
                 + "\n    return Outer.K\nRES = mk()\nLEAK = 'K' in globals()\n")
+    if where == "redefined":
+        return EARLIER + "\nFIRST = K\n" + cls_src + "\nRES = K\nWHERE = FIRST is not K and FIRST.earlier\n"
+    if where == "redefined_in_func":
+        return ("def mk(PV='param-pv'):\n    GLOB = 'local-shadow'\n" + ind(EARLIER, 1) + "\n    first = K\n" + ind(cls_src, 1)
+                + "\n    return K, first\nRES, FIRST = mk()\nLEAK = 'K' in globals()\nWHERE = FIRST().gone()\n")
+    if where == "alternative":
+        return ("if not GLOB:\n" + ind(EARLIER, 1) + "\nelse:\n" + ind(cls_src, 1) + "\nRES = K\nWHERE = 'K' in globals()\n")
     if where == "global_decl":
         return "def mk():\n    global K\n" + ind(cls_src, 1) + "\nmk()\nRES = K\n"
     if where == "closure":
